@@ -433,6 +433,16 @@ func checkRecorded(c *Ctx, fn *ssa.Function, key string) {
 		recvT, m := lastDot(call.Name)
 		isEditor := recvT == "cache.BugCache" && strings.HasSuffix(m, "Raw")
 		isNew := call.Name == "cache.RepoCacheBug.NewRaw"
+		// an editing method that does not take the author explicitly acts as the repository's configured identity
+		if (recvT == "cache.BugCache" || recvT == "cache.RepoCacheBug") && !isEditor && !isNew {
+			if fnv := call.Fn; fnv != nil {
+				for _, inner := range Calls(bodyOf(fnv)) {
+					if strings.HasSuffix(inner.Name, ".getUserIdentity") || hasField(inner.Instr.Common().Value, "getUserIdentity") {
+						c.Violate("R17.4", key+"→"+m+":author", w.InstrPos(call.Instr), "the mutation edits through "+call.Name+", which acts as the repository's configured identity instead of the authenticated request user")
+					}
+				}
+			}
+		}
 		if !isEditor && !isNew {
 			if recvT == "cache.BugCache" && m == "Snapshot" || call.Name == "cache.CachedEntityBase.Snapshot" {
 				// snapshot for the payload must come after a commit
